@@ -28,8 +28,11 @@ def run(ctx):
     from .rules_c11 import _Alias
     ctx.guarded('R03d', c04.NEXT, lambda: c04.r04(_Alias(_Alias(ctx, 'R04a', 'R03d'), 'R04b', 'R03d')))
     ctx.guarded('R03d', c04.NEXT, lambda: c04.r04c(_Alias(ctx, 'R04c', 'R03d')))
+    ctx.guarded('R03d', c04.NEXT, lambda: c04.length_tracking(ctx, 'R03d'))
     ctx.rule('R03e', 'the size written to the pointer counts every matched chunk of a same-file dedup answer with its own length (= C05-R05d): otherwise the size depends on how the bytes were split across calls')
     ctx.guarded('R03e', c05.LOCAL, lambda: c05.r05d(_Alias(ctx, 'R05d', 'R03e')))
+    ctx.rule('R03f', 'outside the chunker itself, data is fed with is_final = false and the stream is closed only by Chunker::finish in SingleFileCleaner::finish: a forced cut anywhere else makes the chunk boundaries (hence the hash) depend on how the bytes were split across calls')
+    ctx.guarded('R03f', 'Chunker feeders', lambda: r03f(ctx))
 
 
 def r03a(ctx):
@@ -155,6 +158,11 @@ def r03b(ctx):
 
 def r03c(ctx):
     c14.r14d(__import__('xl.rules_c11', fromlist=['_Alias'])._Alias(ctx, 'R14d', 'R03c'))
+    add_data_forwards(ctx)
+
+
+def add_data_forwards(ctx):
+    """every byte handed to add_data reaches the chunker exactly once and in order (also used as R14f)"""
     F = ctx.F
     a = an(F.body('data::file_cleaner::SingleFileCleaner::add_data::{closure#0}'))
     fn = a.path
@@ -175,7 +183,10 @@ def r03c(ctx):
         if wp_ is not None and wp_['elem'](a.arg(c, 1)) and L.every_iteration_passes(a, lp_, c):
             blockwise.append(c)
     ok = len(whole) + len(part) + len(blockwise) == len(calls) and len(part) <= 1 and len(blockwise) <= 1 and (part or blockwise or whole)
-    if ctx.check(ok, 'R03c', fn, 'forms', '-', 'every forward passes the whole buffer, the next block of a cursor over it, or the next block of data.chunks(n)'):
+    partial = sorted({sg(a.term(c)['fn']).split('::')[-1] for c in a.calls() if sg(a.term(c).get('fn', '')).split('::')[-1] in ('chunks_exact', 'rchunks', 'windows', 'split_at', 'split_first', 'split_last', 'take', 'skip', 'step_by')
+                      and a.term(c)['args'] and flow.mentions(a.arg(c, 0), is_data)})
+    why = ('the blocks come from data.%s(..), which does not cover every byte of the buffer once and in order: part of the input never reaches the chunker (or reaches it twice / out of order)' % partial[0]) if partial and not ok else None
+    if ctx.check(ok, 'R03c', fn, 'forms', '-', 'every forward passes the whole buffer, the next block of a cursor over it, or the next block of data.chunks(n)', why):
       if part:
         p = part[0]
         lp = c05.loop_of(a, p)
@@ -195,3 +206,50 @@ def r03c(ctx):
         ctx.check(okr, 'R03c', fn, 'slices', a.loc(p), 'the sliced forward passes data[pos..next_pos], pos starts at 0 and becomes next_pos = min(pos + block, data.len()) each iteration (contiguous, no gap or overlap)')
         for c in calls:
             ctx.check(a.awaited(c) is not None, 'R03c', fn, 'awaited', a.loc(c), 'the forward is awaited in place (order preserved)')
+
+
+def r03f(ctx):
+    """C03c: `next_block(block, last_block_of_this_buffer)` cuts a chunk at the end of every large add_data call."""
+    F = ctx.F
+    CH = 'deduplication::chunking::Chunker::'
+    feeds, fins = 0, 0
+    for p, b in sorted(F.bodies.items()):
+        if sg(p).startswith(CH) or '::tests::' in p or '::test' in p.split('::')[-1]:
+            continue
+        a = an(b)
+        for c in a.calls(CH + 'next_block') + a.calls(CH + 'next'):
+            feeds += 1
+            v = a.arg(c, 2)
+            ctx.check(_always_false(ctx, p, v), 'R03f', p, 'is_final', a.loc(c), 'the chunker is fed with is_final = false',
+                      'the chunker is fed with is_final = %s: wherever that is true before the end of the file a chunk is cut at a position that depends on the caller\'s buffer sizes' % flow.show(v)[:60])
+        for c in a.calls(CH + 'finish'):
+            fins += 1
+            ctx.check(sg(p).startswith('data::file_cleaner::SingleFileCleaner::finish'), 'R03f', p, 'finish', a.loc(c), 'the chunk stream is closed in SingleFileCleaner::finish',
+                      'Chunker::finish (forced final cut) is called outside SingleFileCleaner::finish')
+    ctx.floor('R03f', 'feeding call sites outside the chunker', feeds, 1)
+    ctx.floor('R03f', 'Chunker::finish call sites', fins, 1)
+
+
+def _always_false(ctx, p, v, depth=0):
+    """v is the constant false, or a parameter of the enclosing function that every caller binds to the constant false"""
+    if v == ('const', 0, 'bool'):
+        return True
+    if depth >= 2:
+        return False
+    F = ctx.F
+    shell = p[:-len('::{closure#0}')] if p.endswith('::{closure#0}') else p
+    sb = F.bodies.get(shell)
+    if sb is None:
+        return False
+    name = v[1] if v[0] == 'upvar' else (v[2] if v[0] == 'param' and len(v) > 2 else None)
+    idx = [i for i, l in enumerate(sb['locals'][:sb['argc'] + 1]) if i >= 1 and l.get('n') == name]
+    if name is None or len(idx) != 1:
+        return False
+    sites = ctx.cg.call_sites(shell)
+    if not sites:
+        return False
+    for (cb, bi) in sites:
+        ca = an(cb)
+        if not _always_false(ctx, cb['qpath'], ca.arg(bi, idx[0] - 1), depth + 1):
+            return False
+    return True
